@@ -88,7 +88,7 @@ def evPrims (c : Circ) (fuel : Nat) (b : Blk) (d : Nat) (stk0 : List Frame) :
     if !paramsOk h data then (s, .raise ⟨.typeError, false, false⟩)
     else liftCall (inFrame d stk0 s data (fun s4 => handlerBody (deliver c fuel) b d s4 h.1 data))
   callDefault := fun et data s =>
-    if b.kind = .fsm then liftCall (inFrame d stk0 s data (fun s4 => fsmEvent (deliver c fuel) b d stk0 s4 et))
+    if b.kind = .fsm then liftCall (inFrame d stk0 s data (fun s4 => fsmEvent (deliver c fuel) b d stk0 s4 et data))
     else if b.kind = .repeat then
       liftCall (inFrame d stk0 s data (fun s4 => repeatEvent (deliver c fuel) b d s4 et data))
     else (s, .raise ⟨.unknownEvent, true, false⟩)
@@ -301,7 +301,7 @@ theorem callPart_model (et : EType) (data : Data) (s3 : St) :
     simp only [hl, callPart, M.tryExcept, M.bind, evPrims, hk, if_true]
     unfold inHandler liftCall inFrame
     simp only []
-    generalize fsmEvent (deliver c fuel) b d stk0 _ et = p
+    generalize fsmEvent (deliver c fuel) b d stk0 _ et data = p
     obtain ⟨s', r⟩ := p
     cases r with
     | ret v => simp [M.pure, toResV, classify]
